@@ -35,12 +35,17 @@ def c19_step_nesting(F, rep):
     its = [it for it in F.syn("mech_interpreter.lib") if it["k"] == "method" and it["name"] == "step" and "Interpreter" in str(it["self"])]
     if not rep.check(len(its) == 1, "C19-R5", "anchor:step", "Interpreter::step not found"):
         return
-    sites = loop_chain(its[0]["body"], lambda n: n[0] == "mcall" and n[2] == "solve")
+    # loops are roles: the counter is a range whose bound is the step-count PARAMETER (through named locals), the plan traversal is a loop over something read from
+    # the field `plan`; both are followed through private helpers and iterator adaptors (lib/absint.py)
+    from rules.c19 import StepRun
+    from lib import absint as A
+    sr = StepRun(F.syn("mech_interpreter.lib"), its[0])
     n = 0
-    for node, chain in sites:
-        descs = [loop_desc(l) for l in chain]
-        counters = [i for i, d in enumerate(descs) if re.search(r"\.\.\s*\(?step_count|0\s*\.\.", d)]
-        plans = [i for i, d in enumerate(descs) if re.search(r"plan", d)]
+    for e in sr.solves:
+        chain = list(e["loops"])
+        descs = [A.show(sr.I.loops[l]["src"]) for l in chain]
+        counters = [i for i, l in enumerate(chain) if l in sr.counters or (sr.I.loops[l]["src"][0] == "range" and sr.I.loops[l]["src"][1] == ("int", 0))]
+        plans = [i for i, l in enumerate(chain) if sr.is_plan_loop(l)]
         if not counters or not plans:
             continue                # single-function stepping (`step_id != 0`) repeats one function, it is not a pass over the plan
         n += 1
